@@ -265,6 +265,109 @@ def transplant(dst, src, _depth=0):
             pass
 
 
+_PRIMED = False
+_PRIME_CONN = []
+
+
+def _failing_parse():
+    """a link awaiting a response receives a complete, valid frame of a kind it does not take there (a pushed UI frame): the
+    parser raises."""
+    try:
+        from dlms_cosem.hdlc import frames
+        from dlms_cosem.hdlc.address import HdlcAddress
+        from dlms_cosem.hdlc.connection import HdlcConnection
+        c, s = HdlcAddress(16, None, "client"), HdlcAddress(1, 17, "server")
+        if not _PRIME_CONN:
+            conn = HdlcConnection(s, c)
+            conn.send(frames.SetNormalResponseModeFrame(s, c))
+            conn.receive_data(frames.UnNumberedAcknowledgmentFrame(c, s, b"").to_bytes())
+            conn.next_event()
+            conn.send(frames.InformationFrame(s, c, b"\xe6\xe6\x00\xc0\x01", send_sequence_number=0, receive_sequence_number=0))
+            _PRIME_CONN.append((conn, frames.UnnumberedInformationFrame(c, s, b"\xe6\xe7\x00\x0f").to_bytes()))
+        conn, ui = _PRIME_CONN[0]
+        conn.buffer = bytearray()
+        conn.buffer_search_position = 1
+        conn.receive_data(ui)
+        try:
+            conn.next_event()
+        except _Timeout:
+            raise
+        except Exception:  # noqa
+            pass
+        conn.buffer = bytearray()
+        conn.buffer_search_position = 1
+    except _Timeout:
+        raise
+    except Exception:  # noqa
+        pass
+
+
+def prime_failed_parses():
+    """once per process, before cases that expect a refusal: the library goes through what any long-lived process has seen -
+    a link that received a frame it could not parse (bad check sequence, a frame kind not expected there, noise) and a DLMS
+    connection that received undecodable bytes.  Whether a value is accepted or refused afterwards must not depend on it."""
+    global _PRIMED
+    if _PRIMED:
+        # (every time: the last thing the library did before the case is a parse that failed with an exception)
+        with contextlib.redirect_stdout(_DEVNULL):
+            _failing_parse()
+        return
+    _PRIMED = True
+    with contextlib.redirect_stdout(_DEVNULL):
+        try:
+            from dlms_cosem.hdlc import frames, state as hstate
+            from dlms_cosem.hdlc.address import HdlcAddress
+            from dlms_cosem.hdlc.connection import HdlcConnection
+            c, s = HdlcAddress(16, None, "client"), HdlcAddress(1, 17, "server")
+            conn = HdlcConnection(s, c)
+            conn.send(frames.SetNormalResponseModeFrame(s, c))
+            for junk in (b"\x7e\xa0\x08\x21\x02\x23\x73\x00\x00\x7e", b"\x7e\x01\x02\x7e", frames.UnnumberedInformationFrame(c, s, b"\x01").to_bytes()):
+                try:
+                    conn.receive_data(junk)
+                    for _ in range(4):
+                        conn.next_event()
+                except _Timeout:
+                    raise
+                except Exception:  # noqa
+                    pass
+                conn.buffer = bytearray()
+                conn.buffer_search_position = 1
+            conn.receive_data(frames.UnNumberedAcknowledgmentFrame(c, s, b"").to_bytes())
+            conn.next_event()
+            conn.send(frames.InformationFrame(s, c, b"\xe6\xe6\x00\xc0\x01", send_sequence_number=0, receive_sequence_number=0))
+            for junk in (frames.UnnumberedInformationFrame(c, s, b"\x01\x02").to_bytes(), b"\x7e\xa0\x0a\x21\x02\x23\x30\x11\x22\x33\x44\x7e"):
+                try:
+                    conn.receive_data(junk)
+                    for _ in range(4):
+                        conn.next_event()
+                except _Timeout:
+                    raise
+                except Exception:  # noqa
+                    pass
+                conn.buffer = bytearray()
+                conn.buffer_search_position = 1
+        except _Timeout:
+            raise
+        except Exception:  # noqa
+            pass
+        _failing_parse()
+        try:
+            from dlms_cosem.connection import DlmsConnection
+            d = DlmsConnection(client_system_title=b"CLIENT01")
+            for junk in (b"\xff\x01", b"\xc4\x01", b"\x61\x03\x01"):
+                try:
+                    d.receive_data(junk)
+                    d.next_event()
+                except _Timeout:
+                    raise
+                except Exception:  # noqa
+                    pass
+        except _Timeout:
+            raise
+        except Exception:  # noqa
+            pass
+
+
 def hx(b):
     if b is None:
         return "none"
